@@ -23,7 +23,11 @@ CLAIMED['C15'] = dict(
    text="Unbounded proof over an uninterpreted file system (realpath/join/exists/isfile/content as functions of the "
         "path string; realpath idempotent and normalised) that in strict mode the path handed to open() has a real "
         "path equal to or below the real path of the directory, for every requested name incl. the implicit "
-        ".tex/.latex completion; plus: nothing opened => '', content returned unchanged, inside names are read.",
+        ".tex/.latex completion; plus: nothing opened => '', content returned unchanged, inside names are read. "
+        "set_tex_input_directory stores None as None (it does not become the current directory); read_input_file makes no file "
+        "access at all when no directory is configured and otherwise exactly one read_latex_file call with the configured "
+        "directory and strictness. Lexical path functions (normpath, abspath, ...) are uninterpreted: nothing relates them to "
+        "realpath, so a check on a merely normalised path does not discharge the clause.",
    ref="DESIGN.md section 5, C15",
    note=NOTE + "; A-FS: file system constant during one call (no TOCTOU claim)")
 
@@ -184,8 +188,11 @@ CLAIMED['C12'] = dict(
         "indented content) with the in-equations policy pushed for the contents and restored afterwards (frame); discarded macros "
         "and environments contribute ''; node_to_text sends every math node to math_node_to_text; fmt_equation_environment is the "
         "math switch and the table obligation shows every math environment of the walker database is rendered by it. "
-        "LatexExpressionParser.parse is checked for keeping the comments it skips: that obligation is refuted on the tree as it "
-        "stands (known finding, comment between a macro and its argument).",
+        "A dedicated unit shows that fmt_equation_environment hands the node to math_node_to_text in EVERY math mode. "
+        "LatexExpressionParser.parse: nodes skipped before the end of the input are handed back; the clause that the comments it "
+        "skips before a found expression stay in the tree is refuted on the tree as it stands (known finding, comment between a "
+        "macro and its argument); so is the clause that a replacement string renders every argument (known finding: a comment "
+        "inside an argument the replacement text does not use, e.g. the short title of \\section).",
    ref="DESIGN.md section 5, C12", note=_L2T_NOTE + "; LatexExpressionParser.parse: bounded (at most two nodes skipped earlier)")
 
 CLAIMED['C03'] = dict(
@@ -206,8 +213,9 @@ CLAIMED['C10'] = dict(
         "the given state unaltered; LatexMathParserInfo.initialize puts the contents in math mode with the opening delimiter "
         "recorded and takes the closing delimiter from the table's partner of the opening one, the math node keeps the OUTER "
         "state, displaytype follows the token kind, the contents stop exactly at the partner delimiter of the same kind, a "
-        "closing delimiter never opens a formula; LatexDelimitedExpressionParser.parse (groups and math) parses the contents once "
-        "in the contents state and builds the node at the opening token; LatexArgumentsParser.parse gives argument j the state "
+        "closing delimiter never opens a formula; LatexDelimitedExpressionParser.parse (groups and math, parser objects built by "
+        "the library's own constructors) parses the contents once in the contents state, builds the node at the opening token "
+        "and hands NO parsing-state change of the contents on to what follows (a formula is a group); LatexArgumentsParser.parse gives argument j the state "
         "its own delta yields, in order; environment bodies get the spec's body delta (EnvironmentSpec(is_math_mode=True) "
         "declares enter-math: real constructor executed); the collector creates its nodes with its current state and parses "
         "children in make_child_parsing_state(...) (clause on process_one_token); the tokenizer tries the expected closing "
@@ -249,10 +257,14 @@ CLAIMED['C16'] = dict(
         "positional, args_parser string, MacroStandardArgsParser, std_macro in its idioms) yields those argument letters (real "
         "constructors executed); the legacy wrapper asks the legacy parser once at the reader position, leaves the reader at "
         "apos+alen and stores the returned states under the names the spec hooks read; nodeoptarg / nodeargs are the documented "
-        "split; the legacy \\verb / verbatim / specials args parser stays inside the string (loop contract) and raises located errors.",
+        "split; the legacy \\verb / verbatim / specials args parser stays inside the string (loop contract) and raises located errors; "
+        "MacroStandardArgsParser.parse_args (signatures up to two slots) reads its slots one after the other through the legacy "
+        "walker methods, each from where the previous one ended (after a star: just behind it, whatever whitespace preceded it; a "
+        "star slot at the end of the input is absent); that a mandatory slot at a closing brace fails in strict mode as the new "
+        "parser does is refuted (strict_braces=False, pylatexenc 2 behaviour kept on purpose: known finding).",
    ref="DESIGN.md section 5, C16",
    note=NOTE + "; parse_content enters as an arbitrary outcome; MacroStandardArgsParser.parse_args' own argument loop is not proved "
-        "equal to LatexArgumentsParser on all inputs (two-program equivalence, stated); get_token not covered")
+        "equal to LatexArgumentsParser on all inputs (two-program equivalence, stated; per-slot contract instead); get_token not covered")
 
 CLAIMED['C09'] = dict(
    text="Proof of the frame conditions behind purity, recomputed from the real ASTs on every run: for every method of every class whose "
@@ -281,7 +293,7 @@ CLAIMED['C18'] = dict(
         "max_split splits; the result without keep_empty is the result with it minus the empty parts (the function is run twice); callable "
         "/ match-object separators split exactly at the reported match; filter returns exactly the accepted nodes in order. Proved "
         "without bound: get_content_as_chars by cases, the argument views (ParsedArgumentsInfo keeps given arguments; get_content_nodelist "
-        "decision table). parse_keyval_content is run by the verifier on 10 concrete texts x 4 policies and compared with the two splits.",
+        "decision table). parse_keyval_content is run by the verifier on 14 concrete texts x 4 policies and compared with the two splits.",
    ref="DESIGN.md section 5, C18",
    note=NOTE + "; bound: entries <= 2/3 (4 for split_at_node), chars per node <= 2/3, separator <= 2 chars, max_split in {None,0,1,2}; an "
         "inductive invariant for the pending-nodes state machine was not attempted",
